@@ -75,6 +75,8 @@ KINDS = {
     "url-named-file": "/docs/URL:",
     "tal-upper": "/UPPER.HTML.TAL", "gz-lower": "/docs/rep.txt.gz", "gz-upper": "/docs/REP.TXT.GZ",
     "script": "/script.sh",
+    # documents whose first line begins like an mbox separator but is none
+    "from-line-doc": "/letters/fromdesk.txt", "from-line-doc-2": "/letters/fromlong.txt", "from-line-menu": "/letters",
     "script-big": "/bigscript.sh",
     "gz-big": "/bigz.txt.gz",
     "tal": "/t.html.tal",
@@ -218,6 +220,11 @@ def make_spec(bigsize=9000, nmsg=3, ndocs=4):
     # another name for the same directory (a symlink that stays inside the root)
     spec.append({"p": "docs-link", "k": "symlink", "to": "docs"})
     spec.append({"p": "docs/empty.txt", "k": "file", "d": ""})
+    spec.append({"p": "letters", "k": "dir"})
+    spec.append({"p": "letters/fromdesk.txt", "k": "file",
+                 "d": "From the desk of the admin\nDear all,\nnothing new.\n"})
+    spec.append({"p": "letters/fromlong.txt", "k": "file",
+                 "d": "From " + "administrator-at-long-host.xy" + "\nnot a mailbox either\n"})
     for i in range(ndocs):
         spec.append({"p": "docs/doc%d.txt" % i, "k": "file", "d": "doc %d\n" % i})
     spec.append({"p": "docs/doc0.txt.abstract", "k": "file", "d": "abstract of doc0\n"})
